@@ -29,7 +29,7 @@ def system(rng):
     ecps = [gen.rand_ecp(rng, 1, p0, nper=(1, 1), amin=0.4, amax=3.0), gen.rand_ecp(rng, 2, p2, nper=(1, 1), amin=0.4, amax=3.0)]
     extra = {"mshell": [2], "mecp": [1]}
     return {"id": "sys", "extra": extra, "shells": shells, "ecps": ecps,
-            "_disp": [(1, 0.11, -0.07, 0.05), (2, 31.0, 17.0, -24.0), (3, 0.06, 0.12, -0.1)]}      # version 2 moves beyond every screening radius
+            "_disp": [(1, 31.0, 17.0, -24.0), (2, 0.11, -0.07, 0.05), (3, 0.06, 0.12, -0.1)]}      # version 1 moves beyond every screening radius, version 2 comes back: both crossings occur within the exhaustive lengths
 
 
 def write_system(path, s):
@@ -73,7 +73,10 @@ def run(tier, replay=None):
                 "Theorem C05_holds_for_source : forall natoms h, let s := run from_source natoms h in\n"
                 "  firsts (step from_source natoms s CompFirst) = repeat [(sv s, ev s)] (3 * natoms).\n"
                 "Proof. intros natoms h. exact (proj1 (proj2 (history_independent from_source natoms discipline_resetting h))). Qed.\n"
-                "Print Assumptions C05_holds_for_source.\n")
+                "Print Assumptions C05_holds_for_source.\n"
+                "(* the integrator has exactly the data members the state model abstracts (a new member is new state the model\n"
+                "   knows nothing about: the theorem above would no longer be about this class) *)\n"
+                "Theorem members_ok : members_from_source = modelled_members.\nProof. vm_compute. reflexivity. Qed.\n")
     ok = coq_properties(res, PID)
     coq_make(["History/HistoryProofs.vo"])
     rc1, o1 = coqc("gen/ApiDiscipline.v")
